@@ -711,6 +711,17 @@ fn authenticate_message(
     }
 }
 
+#[cfg(feature = "verif-hooks")]
+impl LongTermCredentialClient {
+    pub(crate) fn verif_state(&self) -> (String, Option<String>, Vec<TransactionId>) {
+        (
+            format!("{:?}", self.state),
+            self.params.as_ref().map(|p| format!("{:?}", p)),
+            self.validator.verif_violated(),
+        )
+    }
+}
+
 #[cfg(test)]
 mod long_term_cred_mech_tests {
     use enumflags2::{make_bitflags, BitFlags};
